@@ -57,3 +57,27 @@ Theorem C08_not_found_consumes_nothing : forall srclen f ts x rest e,
   p_expr srclen f ts = (x, rest, e) -> is_nf e = true -> rest = ts.
 Proof. exact p_expr_nf. Qed.
 Print Assumptions C08_not_found_consumes_nothing.
+
+(** ** the whole parser *)
+From PQL Require Import Spec.FlattenStmt Proofs.ParserSoundStmt Proofs.ParserReject.
+
+(** If [Parse] succeeds on a source, the source's token sequence is exactly the token sequence
+    of the returned statements ([toks_prog], Spec/FlattenStmt.v): every significant token is
+    accounted for in the tree, in order, with the kind and (for names, literals, keywords) the
+    text the grammar demands at that place; the only tokens that leave no trace are the comma
+    directly before ')' of a call or before `by` in summarize, and the semicolons around empty
+    statements.  For every source. *)
+Theorem C08_parse_sound : forall s ss, parse s = ParseOk ss -> toks_prog ss (scan s).
+Proof. exact parse_sound. Qed.
+Print Assumptions C08_parse_sound.
+
+(** Consequently a source with an error token (unrecognised character, unterminated string or
+    quoted identifier, malformed number) anywhere is rejected. *)
+Theorem C08_error_token_rejected : forall s t, In t (scan s) -> tkind t = KError -> forall ss, parse s <> ParseOk ss.
+Proof. exact error_token_rejected. Qed.
+Print Assumptions C08_error_token_rejected.
+
+(** the premise is satisfiable: a program using most productions parses *)
+Example C08_parse_sound_nonvacuous :
+  exists ss, parse (L "let n = 3; T | where a == -f(b[1], 2,) and c in (1, 2) | summarize x = count(), by k | join kind=inner (U | take n) on k | sort by x desc nulls last;;") = ParseOk ss.
+Proof. eexists. vm_compute. reflexivity. Qed.
